@@ -43,8 +43,26 @@ def oracle(log):
         t, r = w[0], w[1]
         if r == "WAIT":
             inwait.add(t)
+            # a post that has RETURNED (its wake-up is sent) before the owner enters a kernel wait is visible to that wait and to every later
+            # one. The wake-up may have to queue behind other ready sources (the epoll back ends ask for as many entries per call as there
+            # are registered descriptors, at least one), so a few waits may complete first; TEN completed waits without the handler mean the
+            # owner is not being woken for it: the post is lost. An unregistration excuses only a delivery the owner had no such chance to make.
+            for e, lst in outstanding.items():
+                if owner.get(e) == t and reg.get(e):
+                    for p in lst:
+                        if len(p) > 2 and p[2] == "posted":
+                            p[2] = "armed"
+                        if len(p) > 3 and p[3] >= LOST_AFTER_WAITS:
+                            return ("event:lost-post", f"line {n}: post of {e} at line {p[0]} had returned before its owner {t} entered a kernel wait; "
+                                                       f"{p[3]} waits have completed since and {t} waits again without having run the handler")
         elif r == "WRET":
             inwait.discard(t)
+            if len(w) > 2 and w[2].startswith("n=") and not w[2].startswith("n=-"):
+                for e, lst in outstanding.items():
+                    if owner.get(e) == t and reg.get(e):
+                        for p in lst:
+                            if len(p) > 3 and p[2] == "armed":
+                                p[3] += 1
         elif r == "API" and len(w) >= 4 and w[2] == "evRegister":
             pend_reg[t] = w[3]
         elif r == "RET" and t in pend_reg:
@@ -55,6 +73,10 @@ def oracle(log):
                 outstanding[e] = []
         elif r == "API" and len(w) >= 4 and w[2] == "evUnregister":
             e = w[3]
+            for p in outstanding.get(e, []):
+                if len(p) > 3 and p[3] >= LOST_AFTER_WAITS and reg.get(e):
+                    return ("event:lost-post", f"line {n}: post of {e} at line {p[0]} had returned before its owner {t} entered a kernel wait; that wait "
+                                               f"and {p[3]} more completed, and the event is now unregistered without its handler having run")
             reg[e] = False
             outstanding[e] = []
         elif r == "POST":
@@ -63,13 +85,15 @@ def oracle(log):
             if ow == t and t in inwait:
                 return ("artefact", f"line {n}: stimulus posts {e} from its owner thread inside that thread's kernel wait")
             posts[e] = posts.get(e, 0) + 1
-            ent = [n, False]
+            ent = [n, False, "open", 0]
             outstanding.setdefault(e, []).append(ent)
             inpost[t] = ent
         elif r == "UNLOCK" and w[2].startswith("evmu:") and t in inpost:
             inpost[t][1] = True          # the post is linearised at the end of its critical section
         elif r == "POSTED":
-            inpost.pop(t, None)
+            ent = inpost.pop(t, None)
+            if ent is not None and ent[1] and ent[2] == "open":
+                ent[2] = "posted"
         elif r == "CB" and w[2].startswith("e") and w[2][1:].isdigit():
             e = w[2]
             ow = w[3].split("=")[1]
@@ -244,6 +268,9 @@ def enum_bases(seed):
     return out
 
 
+LOST_AFTER_WAITS = 10
+
+
 def generation_cases():
     """Enumerated (every run): a SECOND generation of events in the process. Every iv_event of every thread is unregistered (the transport's
     process-wide resources are torn down), the application opens descriptors of its own (or not), then events are registered again, in the
@@ -257,12 +284,12 @@ def generation_cases():
                 L += ["thread 0", "obj event e0"] + (["obj event e1"] if owner2 == 0 else []) + ["obj timer t0", "obj timer t1", "obj timer t2",
                       "do evreg e0 ; trel t0 1000000"]
                 if owner2 == 0:
-                    L += [f"on t0 1 : evunreg e0 ; {app} ; evreg e1 ; trel t1 50000000", "on t1 1 : evunreg e1", "main",
-                          "thread 1", "obj timer t8", "do trel t8 3000000", "on t8 1 : evpost e1", "main"]
+                    L += [f"on t0 1 : evunreg e0 ; {app} ; evreg e1 ; trel t1 5000000"] + [f"on t1 {k} : trel t1 2000000" for k in range(1, 14)] + \
+                         ["on t1 14 : evunreg e1", "main", "thread 1", "obj timer t8", "do trel t8 3000000", "on t8 1 : evpost e1", "main"]
                 else:
                     L += [f"on t0 1 : evunreg e0 ; {app} ; trel t2 5000000", "on t2 1 : evpost e1", "main",
                           "thread 1", "obj event e1", "obj timer t8", "obj timer t9", "do trel t8 2000000",
-                          "on t8 1 : evreg e1 ; trel t9 50000000", "on t9 1 : evunreg e1", "main"]
+                          "on t8 1 : evreg e1 ; trel t9 5000000"] + [f"on t9 {k} : trel t9 2000000" for k in range(1, 14)] + ["on t9 14 : evunreg e1", "main"]
                 cases.append((f"generation-{tr or 'default'}-{app.count('appfd')}-o{owner2}".replace(" ", "+"), L))
     return cases
 
